@@ -551,6 +551,9 @@ class Transport(threading.Thread, ClosingContextManager):
         self.clear_to_send = threading.Event()
         self.clear_to_send_lock = threading.Lock()
         self.clear_to_send_timeout = 30.0
+        # messages the transport thread itself wanted to send mid-kex; they
+        # go out, in order, once the new keys are in place
+        self._deferred_user_messages = []
         self.log_name = "paramiko.transport"
         self.logger = util.get_logger(self.log_name)
         self.packetizer.set_log(self.logger)
@@ -1964,6 +1967,15 @@ class Transport(threading.Thread, ClosingContextManager):
         """
         start = time.time()
         while True:
+            if (
+                threading.current_thread() is self
+                and not self.clear_to_send.is_set()
+            ):
+                # Only this thread can finish the key exchange, so waiting
+                # for it here would stall the exchange until the timeout.
+                # Hold the message back until NEWKEYS instead.
+                self._deferred_user_messages.append(data)
+                return
             self.clear_to_send.wait(0.1)
             if not self.active:
                 self._log(
@@ -2225,7 +2237,7 @@ class Transport(threading.Thread, ClosingContextManager):
                     if ptype in self._handler_table:
                         error_msg = self._ensure_authed(ptype, m)
                         if error_msg:
-                            self._send_message(error_msg)
+                            self._send_user_message(error_msg)
                         else:
                             self._handler_table[ptype](m)
                     elif ptype in self._channel_handler_table:
@@ -2912,6 +2924,12 @@ class Transport(threading.Thread, ClosingContextManager):
             self.in_kex = False
         self.clear_to_send_lock.acquire()
         try:
+            deferred, self._deferred_user_messages = (
+                self._deferred_user_messages,
+                [],
+            )
+            for deferred_message in deferred:
+                self._send_message(deferred_message)
             self.clear_to_send.set()
         finally:
             self.clear_to_send_lock.release()
@@ -2956,7 +2974,7 @@ class Transport(threading.Thread, ClosingContextManager):
                 msg.add(*extra)
             else:
                 msg.add_byte(cMSG_REQUEST_FAILURE)
-            self._send_message(msg)
+            self._send_user_message(msg)
 
     def _parse_request_success(self, m):
         self._log(DEBUG, "Global request successful.")
@@ -3103,7 +3121,7 @@ class Transport(threading.Thread, ClosingContextManager):
             msg.add_int(reason)
             msg.add_string("")
             msg.add_string("en")
-            self._send_message(msg)
+            self._send_user_message(msg)
             return
 
         chan = Channel(my_chanid)
@@ -3126,7 +3144,7 @@ class Transport(threading.Thread, ClosingContextManager):
         m.add_int(my_chanid)
         m.add_int(self.default_window_size)
         m.add_int(self.default_max_packet_size)
-        self._send_message(m)
+        self._send_user_message(m)
         self._log(
             DEBUG, "Secsh channel {:d} ({}) opened.".format(my_chanid, kind)
         )
